@@ -28,28 +28,32 @@ VARIABLES bpos, brun, bstat
 bvars == <<bpos, brun, bstat>>
 
 EmptyRun == [id |-> 0, scenario |-> "", pending |-> <<>>, started |-> {}, finished |-> {}, seen |-> {}, nones |-> {},
-             counts |-> {}, joined |-> FALSE, final |-> {}, fails |-> {}, allocs |-> {}]
+             counts |-> {}, joined |-> FALSE, final |-> {}, fails |-> {}, allocs |-> {}, exhausted |-> 0, exhausting |-> 0]
+\* exhausting / exhausted: sequence number of the call / return of a batch that reported an absurd length and thereby
+\* used up the whole index space (0: none)
 
 \* reservation size of a call (indices it takes from the counter), and the values it publishes
 Reserve(c) ==
-  IF c.api \in {"push", "push_panic"} THEN 1
+  IF c.api \in {"push", "push_panic", "push_checked"} THEN 1
   ELSE IF c.api = "extend" THEN c.reported
   ELSE IF c.api = "extend_panic" THEN Len(c.vals)
   ELSE 0
 Published(c) ==   \* sequence of values that end up visible, in index order
   IF c.api = "push" THEN <<c.v>>
+  ELSE IF c.api = "push_checked" THEN (IF c.refused THEN <<>> ELSE <<c.v>>)
   ELSE IF c.api = "extend" THEN SubSeq(c.vals, 1, IF Len(c.vals) < c.reported THEN Len(c.vals) ELSE c.reported)
   ELSE IF c.api = "extend_panic" THEN SubSeq(c.vals, 1, c.at)
   ELSE <<>>
 Created(c) ==     \* every value the call was handed
-  IF c.api \in {"push", "push_panic"} THEN {c.v}
+  IF c.api \in {"push", "push_panic", "push_checked"} THEN {c.v}
   ELSE IF c.api \in {"extend", "extend_panic"} THEN {c.vals[k] : k \in 1..Len(c.vals)}
   ELSE {}
 SeqToSet(q) == {q[k] : k \in 1..Len(q)}
 RECURSIVE SumSet(_)
 SumSet(S) == IF S = {} THEN 0 ELSE LET x == CHOOSE y \in S : TRUE IN x[2] + SumSet(S \ {x})
 
-Writers == {"push", "push_panic", "extend", "extend_panic"}
+Writers == {"push", "push_panic", "push_checked", "extend", "extend_panic"}
+IsPush(c) == c.api = "push" \/ (c.api = "push_checked" /\ ~c.refused)
 
 \* calls (records of `finished`) that had returned before sequence number s
 ReturnedBefore(run, s) == {c \in run.finished : c.rseq < s}
@@ -66,23 +70,29 @@ LookupSome(run, idx, v, colsok, rseq) ==
   \cup Bad(\E c \in StartedBefore(run, rseq) : c.api \in Writers /\ v \in SeqToSet(Published(c)), "value_that_no_push_was_assigned")
   \cup Bad(\A p \in run.seen : p[1] = idx => p[2] = v, "index_changed_value")
   \cup Bad(\A p \in run.seen : p[2] = v => p[1] = idx, "value_at_two_indices")
-  \cup Bad(\A c \in run.finished : (c.api = "push" /\ c.idx = idx) => c.v = v, "lookup_differs_from_returned_push")
+  \cup Bad(\A c \in run.finished : (IsPush(c) /\ c.idx = idx) => c.v = v, "lookup_differs_from_returned_push")
 
 LookupNone(run, idx, cseq) ==
-  Bad(\A c \in ReturnedBefore(run, cseq) : ~(c.api = "push" /\ c.idx = idx), "completed_push_not_visible")
+  Bad(\A c \in ReturnedBefore(run, cseq) : ~(IsPush(c) /\ c.idx = idx), "completed_push_not_visible")
 
 \* what a finished call contributes to the checks
 RetFails(run, c, e) ==
-  IF c.api = "push" THEN
-       Bad(\A d \in run.finished : d.api = "push" => d.idx # e.idx, "index_handed_out_twice")
+  IF c.api = "push" \/ (c.api = "push_checked" /\ ~e.panicked) THEN
+       Bad(\A d \in run.finished : IsPush(d) => d.idx # e.idx, "index_handed_out_twice")
        \cup Bad(\A p \in run.seen : p[1] = e.idx => p[2] = c.v, "lookup_differs_from_returned_push")
+       \* once a batch has used up the index space every later push is refused (the documented capacity panic)
+       \cup Bad(run.exhausted = 0 \/ c.seq < run.exhausted, "push_accepted_after_index_space_exhausted")
+  ELSE IF c.api = "push_checked" THEN
+       Bad(run.exhausting > 0 /\ run.exhausting < e.seq, "push_refused_although_capacity_left")
+  ELSE IF c.api = "extend_huge" THEN
+       Bad(e.panicked, "batch_of_absurd_length_accepted")
   ELSE IF c.api = "get" THEN
        (IF ~e.res.some THEN LookupNone(run, c.idx, c.seq)
         ELSE LookupSome(run, c.idx, e.res.v, e.res.cols_ok, e.seq))
   ELSE IF c.api = "count" THEN
        \* never smaller than the number of completed pushes, never more than what has been reserved
-       Bad(e.res >= Cardinality({d \in ReturnedBefore(run, c.seq) : d.api = "push"}), "count_below_completed_pushes")
-       \cup Bad(e.res <= SumSet({<<d.seq, Reserve(d)>> : d \in {x \in StartedBefore(run, e.seq) : x.api \in Writers}}), "count_above_reservations")
+       Bad(e.res >= Cardinality({d \in ReturnedBefore(run, c.seq) : IsPush(d)}), "count_below_completed_pushes")
+       \cup (IF run.exhausting > 0 THEN {} ELSE Bad(e.res <= SumSet({<<d.seq, Reserve(d)>> : d \in {x \in StartedBefore(run, e.seq) : x.api \in Writers}}), "count_above_reservations"))
        \cup Bad(\A k \in run.counts : (k[1] = c.tid /\ k[3] < c.seq) => k[2] <= e.res, "count_decreased")
   ELSE IF c.api = "snapshot" THEN
        \* snapshot(start) asserts start <= count: a caller that is ahead of the reservations is told so by a panic;
@@ -95,13 +105,18 @@ RetFails(run, c, e) ==
        \* the iterator-length assertion: panics iff the iterator yields more than it reported
        Bad(e.panicked = (Len(c.vals) > c.reported), "extend_panic_iff_iterator_too_long")
   ELSE IF c.api \in {"push_panic", "extend_panic"} THEN Bad(e.panicked, "fill_panic_swallowed")
+  ELSE IF c.api = "mem_balance" THEN
+       \* a whole vector (buckets, matcher columns of every published entry, items with or without drop glue) built and
+       \* dropped with nothing else going on in the process: the drop gives back every byte
+       Bad(e.held_after_drop = 0, "memory_still_held_after_the_vector_was_dropped")
+       \cup Bad(e.held_while_alive > 0, "memory_balance_not_measured")
   ELSE {}
 
 \* pairs observed by a returning lookup
 NewSeen(c, e) ==
   IF c.api = "get" /\ e.res.some THEN {<<c.idx, e.res.v>>}
   ELSE IF c.api = "snapshot" /\ ~e.panicked THEN {<<e.items[k][1], e.items[k][2].v>> : k \in {j \in 1..Len(e.items) : e.items[j][2].some}}
-  ELSE IF c.api = "push" THEN {<<e.idx, c.v>>}
+  ELSE IF c.api = "push" \/ (c.api = "push_checked" /\ ~e.panicked) THEN {<<e.idx, c.v>>}
   ELSE {}
 
 \* end of run: the read-back must be explained by exactly the calls that were made
@@ -111,10 +126,10 @@ EndFails(run, e) ==
       total == SumSet({<<c.seq, IF c.api = "extend" /\ c.reported = 0 THEN 0 ELSE Reserve(c)>> : c \in writers})
       pubvals == UNION {SeqToSet(Published(c)) : c \in writers}
       finalvals == {p[2] : p \in run.final} IN
-  Bad(run.lastcount = total, "indices_not_gap_free")
+  (IF run.exhausting > 0 THEN {} ELSE Bad(run.lastcount = total, "indices_not_gap_free"))
   \cup Bad(finalvals = pubvals, "published_values_differ_from_calls")
   \cup Bad(Cardinality(run.final) = Cardinality(finalvals), "value_at_two_indices")
-  \cup Bad(\A c \in writers : c.api = "push" => <<c.idx, c.v>> \in run.final, "returned_push_not_at_its_index")
+  \cup Bad(\A c \in writers : IsPush(c) => <<c.idx, c.v>> \in run.final, "returned_push_not_at_its_index")
   \cup Bad(\A c \in writers : \A k \in 1..Len(Published(c)) - 1 :
             (Published(c)[k] \in finalvals /\ Published(c)[k+1] \in finalvals)
               => FinalIdx(run, Published(c)[k+1])[1] = FinalIdx(run, Published(c)[k])[1] + 1, "batch_not_contiguous_in_order")
@@ -152,8 +167,8 @@ Step ==
                        reported |-> IF "reported" \in DOMAIN e THEN e.reported ELSE 0,
                        at |-> IF "at" \in DOMAIN e THEN e.at ELSE 0,
                        idx |-> IF "idx" \in DOMAIN e THEN e.idx ELSE 0,
-                       start |-> IF "start" \in DOMAIN e THEN e.start ELSE 0] IN
-             /\ brun' = [brun EXCEPT !.started = @ \cup {c}]
+                       start |-> IF "start" \in DOMAIN e THEN e.start ELSE 0, refused |-> FALSE] IN
+             /\ brun' = [brun EXCEPT !.started = @ \cup {c}, !.exhausting = IF e.api = "extend_huge" /\ @ = 0 THEN e.seq ELSE @]
              /\ bstat' = [bstat EXCEPT !.events = @ + 1, !.calls = @ + 1]
         ELSE IF e.site = "ret" THEN
              LET cs == {c \in brun.started : c.tid = e.tid /\ c.api = e.api /\ \A d \in brun.finished : d.seq # c.seq}
@@ -166,7 +181,8 @@ Step ==
                   /\ bstat' = [bstat EXCEPT !.events = @ + 1, !.fails = @ + Cardinality(F)]
              ELSE
                   LET F == RetFails(brun, c, e)
-                      d == [c EXCEPT !.idx = IF e.api = "push" THEN e.idx ELSE c.idx] @@ [rseq |-> e.seq] IN
+                      d == [c EXCEPT !.idx = IF e.api = "push" \/ (e.api = "push_checked" /\ ~e.panicked) THEN e.idx ELSE c.idx,
+                                     !.refused = (e.api = "push_checked" /\ e.panicked)] @@ [rseq |-> e.seq] IN
                   /\ Report(brun, F, e)
                   /\ brun' = [brun EXCEPT !.finished = @ \cup {d},
                                           !.seen = @ \cup NewSeen(c, e),
@@ -176,6 +192,7 @@ Step ==
                                                                  ELSE {}),
                                           !.counts = @ \cup (IF c.api = "count" THEN {<<c.tid, e.res, e.seq>>} ELSE {}),
                                           !.final = IF brun.joined /\ c.api = "get" /\ e.res.some THEN @ \cup {<<c.idx, e.res.v>>} ELSE @,
+                                          !.exhausted = IF c.api = "extend_huge" /\ @ = 0 THEN e.seq ELSE @,
                                           !.fails = @ \cup F]
                   /\ bstat' = [bstat EXCEPT !.events = @ + 1, !.fails = @ + Cardinality(F),
                                             !.lookups = @ + (IF c.api \in {"get", "snapshot", "count"} THEN 1 ELSE 0)]
